@@ -105,6 +105,12 @@ impl GrammarBuilder {
             // Extract productions and nonterminals from grammar rules.
             self.start_rule_name = rules[0].name.as_ref().into();
             self.extract_productions_and_symbols(rules)?;
+        } else {
+            return err!(
+                "The grammar must have at least one rule.".to_owned(),
+                Some(self.file.clone()),
+                None
+            );
         }
 
         // Create implicit terminals from string constants.
